@@ -732,12 +732,15 @@ impl<'a> Exec<'a> {
             self.obs_log.extend_from_slice(rs.as_bytes());
             return;
         }
+        // A read that brought nothing is not one of the stream's errors (C01): the call may
+        // report the stream condition (StreamReadError) or nothing at all, never a parse error or
+        // a closed connection.
         match &o.result {
-            Ok(Err(ConnectionError::StreamReadError(x))) if x.errno() == errno => {}
+            Ok(Err(ConnectionError::StreamReadError(_))) | Ok(Ok(())) => {}
             _ => {
                 return self.fail(
                     "empty-read-result",
-                    format!("try_read on a stream answering errno {} must report StreamReadError({}), got {}", errno, errno, rs),
+                    format!("try_read on a stream answering errno {} (no data) returned {}", errno, rs),
                 )
             }
         }
@@ -747,9 +750,10 @@ impl<'a> Exec<'a> {
         if !o.delivered.is_empty() || !o.interim.is_empty() {
             return self.fail("empty-read-delivered", format!("an empty read delivered {} requests / {} responses", o.delivered.len(), o.interim.len()));
         }
-        if before != after {
-            return self.fail("empty-read-changed-state", "an empty (would-block / interrupted) read changed the connection state".to_string());
-        }
+        // (The implementation may do housekeeping on such a call; if that changes its state the
+        // changed state gets its own key and is explored like any other - what matters is that
+        // deliveries and errors still follow the stream.)
+        let _ = (before, after);
         if let Some(t) = &mut self.twin {
             let _ = do_read(t, ReadAns::Errno(errno));
         }
